@@ -140,6 +140,41 @@ def run(repo: Repo, chk: Check) -> None:
     chk.minimum('format/logging sites in rpc/search.py', nsites, 5)
 
     # ---- 2 coverage of find_state_change_intervals ------------------------------------------------------------------
+    # ---- 1b the search functions keep no state between calls: "exactly the changes of THIS history" cannot hold if a probe of an earlier search
+    #         (another contract, another value) is remembered.  A mutable default argument that the body writes to, or a module-level container the
+    #         functions write to, is such a memory.
+    chk.set_clause('C29.1')
+    smod = repo.module(S)
+    module_containers = {n for n, v in smod.assigns.items() if isinstance(v, (ast.Dict, ast.List, ast.Set, ast.DictComp, ast.ListComp)) or
+                         (isinstance(v, ast.Call) and dotted(v.func) in ('dict', 'list', 'set', 'defaultdict', 'collections.defaultdict', 'OrderedDict'))}
+    nfun = 0
+    for fi in repo.iter_functions(S + '.'):
+        nfun += 1
+        a = fi.node.args
+        params = [x.arg for x in a.posonlyargs + a.args]
+        defaults = dict(zip(params[len(params) - len(a.defaults):], a.defaults))
+        defaults.update({k.arg: d for k, d in zip(a.kwonlyargs, a.kw_defaults) if d is not None})
+        mutable = {n for n, d in defaults.items() if isinstance(d, (ast.Dict, ast.List, ast.Set)) or
+                   (isinstance(d, ast.Call) and dotted(d.func) in ('dict', 'list', 'set', 'defaultdict', 'collections.defaultdict'))}
+        written = set()
+        for n in ast.walk(fi.node):
+            tgt = None
+            if isinstance(n, (ast.Assign, ast.AugAssign, ast.AnnAssign)):
+                for t in (n.targets if isinstance(n, ast.Assign) else [n.target]):
+                    if isinstance(t, ast.Subscript) and isinstance(t.value, ast.Name):
+                        written.add(t.value.id)
+            if isinstance(n, ast.Call) and isinstance(n.func, ast.Attribute) and isinstance(n.func.value, ast.Name) and \
+                    n.func.attr in ('append', 'extend', 'update', 'setdefault', 'add', 'insert', 'pop', 'clear', 'remove', '__setitem__'):
+                written.add(n.func.value.id)
+            if isinstance(n, ast.Global):
+                written.update(n.names)
+        leaks = sorted((mutable | module_containers) & written)
+        chk.ob('R-FLOW', fi.qualname, not leaks, 'no memory across calls (mutable default argument / module-level container written by the function)', fi.loc,
+               {'mutable_defaults': sorted(mutable), 'written': sorted(written & (mutable | module_containers))},
+               what=f'{fi.name} writes to {leaks}, which lives across calls: probes of an earlier search (another history) are served to the next one, which then '
+                    'reports changes of the wrong history')
+    chk.minimum('search functions examined for state', nfun, 4)
+
     chk.set_clause('C29.2')
     fi = repo.func(f'{S}.find_state_change_intervals')
     shapes = [(200, 0, 60), (100, 0, 60), (10, 0, 3), (9, 0, 3), (5, 2, 60), (61, 0, 60), (120, 60, 60)]
